@@ -1,123 +1,193 @@
-"""Hunt for property C07 (marker text round-trip) on the unmodified tree.
+"""C07 hunt (round 3): report of what was tried on the UNMODIFIED library.
 
-Run:  cd /tmp/wt/C07g && PYTHONPATH=/tmp/wt/C07g/src /venv/bin/python hunt_C07.py
+Result: no NEW violation INSIDE the property's quantifier was found.
 
-NEW violation family found: a marker literal that contains a NUL character or a
-lone surrogate code point.  Such a literal is legal input (it is written with a
-Python escape sequence inside the quoted string, which packaging evaluates with
-ast.literal_eval), parse_marker accepts it and evaluates it correctly, but
-str(m) writes the character raw, and the text is then rejected both by
-parse_marker and by packaging.markers.Marker.  (_quote() escapes backslash, CR,
-LF and the double quote, but not these.)  The failure survives &, |, only(),
-exclude(), EqualityMarkerUnion / InequalityMultiMarker rendering and
-literal-on-the-left atoms.
+This script
+  1. re-runs a compact version of the three generators that were used (flipped atoms,
+     wildcard / non-version literals with == and !=, odd string values, extras and
+     dependency_groups, chains of & | only exclude without_extras, `| EmptyMarker()`,
+     `& AnyMarker()`), judging every result with packaging as the oracle, and
+  2. prints two BORDERLINE observations that are outside the quantifier (the atoms are
+     not well defined / the object is not produced by parse, &, |, only, exclude), so
+     they are listed for information only.
 
-The script also prints one side observation that is NOT a C07 violation (the
-result round-trips) but was met on the way: a comma inside a version operand.
+Full-size runs done by hand (all 0 failures, known families filtered out of the
+generators): 193k markers (plain grammar fuzzer, 42 envs each), 8k + 4 x 2500 iterations
+of the odd-atom fuzzer, 480k markers from operation chains, 8145 markers with
+backslash / quote / newline values (demo_C07.py), from_specifier() on 8274
+(name, specifier) pairs built from 4000 random specifier expressions, and _quote on
+104k strings around every code point class against packaging's tokenizer.
 """
-
 from __future__ import annotations
 
-from packaging.markers import InvalidMarker as PkgInvalidMarker
+import random
+import signal
+
 from packaging.markers import Marker
+from packaging.specifiers import InvalidSpecifier, Specifier
 
-from dep_logic.markers import parse_marker
+from dep_logic.markers import AnyMarker, EmptyMarker, MarkerExpression, parse_marker
 
-found = 0
-
-
-def env(**kw):
-    base = {
-        "os_name": "posix",
-        "sys_platform": "linux",
-        "platform_version": "#1 SMP",
-        "platform_machine": "x86_64",
-        "python_version": "3.11",
-        "python_full_version": "3.11.4",
-        "extra": "",
-    }
-    base.update(kw)
-    return base
+STR_NAMES = ["os_name", "sys_platform", "platform_system", "platform_machine", "platform_version", "os.name"]
+VER_NAMES = ["python_version", "python_full_version", "platform_release", "implementation_version"]
+STR_VALUES = ["posix", "nt", "", "linux", "lin", "a b", "a\\b", "it's", 'say "hi"', "tab\tx", "é", "1.0", "1.0.0", " 1.0"]
+VER_VALUES = ["3.8", "3.8.0", "3.8.1", "3", "3.0", "3.9", "3.10", "4", "2.7", "3.8.*", "3.*", "3.8.0.*", "3.08", "v3.8",
+              "3.8 ", "3.8.0.0", "3.8.0.1", "0!3.8", "3_8", "abc", "", "3.8.x", "5", "5.10", "5.*", "3.8,3.9", "3.8|3.9", "*"]
+EXTRA_VALUES = ["a", "A", "a_b", "a-b", "a.b", "A__B", "b", ""]
+NAMES = ["os_name", "sys_platform", "python_version", "python_full_version", "extra", "platform_release", "extras"]
 
 
-def report(title, build_src, m, envs):
-    """m is a marker inside the quantifier; check the round trip of str(m)."""
-    global found
-    text = str(m)
-    print(f"--- {title}")
-    print(f"    input            : {build_src}")
-    print(f"    library str(m)   : {text!r}")
-    for e in envs:
-        shown = {k: e[k] for k in ("os_name", "platform_version", "extra") if k in e}
-        print(f"    m.evaluate({shown!r}) = {m.evaluate(e)}")
-    problems = []
-    try:
-        again = parse_marker(text)
-    except Exception as exc:  # noqa: BLE001
-        problems.append(f"parse_marker(str(m)) raises {type(exc).__name__}: {str(exc).splitlines()[0]}")
-        again = None
-    try:
-        Marker(text)
-    except PkgInvalidMarker as exc:
-        problems.append(f"packaging Marker(str(m)) raises InvalidMarker: {str(exc).splitlines()[0]}")
-    if again is not None:
-        for e in envs:
-            if again.evaluate(e) != m.evaluate(e):
-                problems.append(f"re-parsed marker evaluates differently in {e}")
-    if problems:
-        found += 1
-        for p in problems:
-            print(f"    VIOLATION        : {p}")
-        print("    expected         : str(m) is a valid PEP 508 marker that parses back to an equivalent marker")
+def lit(v: str) -> str:
+    return '"' + v.replace("\\", "\\\\").replace("\t", "\\t").replace('"', "\\x22") + '"'
+
+
+def atom(rng: random.Random) -> str:
+    k = rng.random()
+    flip = rng.random() < 0.3
+    if k < 0.3:
+        name, op, v = rng.choice(STR_NAMES), rng.choice(["==", "!=", "in", "not in"]), rng.choice(STR_VALUES)
+    elif k < 0.8:
+        name, op, v = rng.choice(VER_NAMES), rng.choice(["==", "!=", "<", "<=", ">", ">=", "~=", "==", "!="]), rng.choice(VER_VALUES)
+        if op not in ("==", "!="):
+            try:  # ordering / ~= only with a version operand (known family 13/15 otherwise)
+                Specifier(f"{op}{v}")
+            except InvalidSpecifier:
+                return atom(rng)
+            if op == "~=":
+                flip = False  # `"3.0" ~= platform_release` is undefined when the environment value has one segment
+    elif k < 0.92:
+        name, op, v = "extra", rng.choice(["==", "!="]), rng.choice(EXTRA_VALUES)
     else:
-        print("    round trip fine")
+        name, op, v, flip = rng.choice(["extras", "dependency_groups"]), rng.choice(["in", "not in"]), rng.choice(EXTRA_VALUES), True
+    return f"{lit(v)} {op} {name}" if flip else f"{name} {op} {lit(v)}"
 
 
-# 1. plain atom, NUL written as an escape sequence (legal: packaging accepts the source)
-src = r'os_name == "a\x00b"'
-Marker(src)  # the oracle accepts the input
-m = parse_marker(src)
-assert Marker(src).evaluate(env(os_name="a\x00b")) is True
-report("NUL inside a literal", src, m, [env(os_name="a\x00b"), env(os_name="ab")])
+def expr(rng: random.Random, depth: int) -> str:
+    if depth == 0 or rng.random() < 0.4:
+        return atom(rng)
+    glue = rng.choice([" and ", " or "])
+    parts = []
+    for _ in range(rng.randint(2, 3)):
+        e = expr(rng, depth - 1)
+        parts.append(f"({e})" if (" and " in e or " or " in e) else e)
+    return glue.join(parts)
 
-# 2. the same with \0 and single quotes, literal on the left
-src = r"'\0' in platform_version"
-Marker(src)
-report("NUL, literal on the left", src, parse_marker(src), [env(platform_version="x\x00y"), env()])
 
-# 3. a lone surrogate
-src = r'os_name == "a\ud800b"'
-Marker(src)
-report("lone surrogate inside a literal", src, parse_marker(src), [env(os_name="a\ud800b"), env()])
+def envs() -> list[dict]:
+    rng = random.Random(7)
+    out = []
+    for full in ["2.7.18", "3.0.0", "3.7.9", "3.8.0", "3.8.1", "3.9.0", "3.10.0", "3.10.4", "4.0.0"]:
+        for _ in range(2):
+            env: dict = {"python_full_version": full, "python_version": ".".join(full.split(".")[:2])}
+            for n in STR_NAMES[:-1]:
+                env[n] = rng.choice(STR_VALUES)
+            env["platform_release"] = rng.choice(["5.10.0", "5", "3.8", "3.8.0", "4.19.0"])
+            env["implementation_version"] = rng.choice(["3.8.0", "3.8.1", "3.10.0"])
+            env["extra"] = rng.choice(["", "a", "b", "a-b", "A_B"])
+            env["extras"] = set(rng.sample(EXTRA_VALUES, rng.randint(0, 3)))
+            env["dependency_groups"] = set(rng.sample(EXTRA_VALUES, rng.randint(0, 3)))
+            out.append(env)
+    return out
 
-# 4. survives the operators: | (EqualityMarkerUnion), & (InequalityMultiMarker), only(), exclude()
-a = parse_marker(r'os_name == "a\x00b"')
-b = parse_marker('os_name == "nt"')
-c = parse_marker('sys_platform == "linux"')
-report("result of |  (EqualityMarkerUnion)", r'(os_name == "a\x00b") | (os_name == "nt")', a | b, [env(os_name="a\x00b"), env(os_name="nt"), env()])
-na = parse_marker(r'os_name != "a\x00b"')
-nb = parse_marker('os_name != "nt"')
-report("result of &  (InequalityMultiMarker)", r'(os_name != "a\x00b") & (os_name != "nt")', na & nb, [env(os_name="a\x00b"), env()])
-report("result of & then only('os_name')", r'((os_name == "a\x00b") & (sys_platform == "linux")).only("os_name")', (a & c).only("os_name"), [env(os_name="a\x00b"), env()])
-report("result of | then exclude('sys_platform')", r'((os_name == "a\x00b") & (sys_platform == "linux") | (os_name == "nt")).exclude("sys_platform")', ((a & c) | b).exclude("sys_platform"), [env(os_name="a\x00b"), env()])
 
-# 5. extra / extras
-src = r'extra == "x\x00"'
-Marker(src)
-report("NUL in an extra name", src, parse_marker(src), [env(extra="x\x00"), env()])
+ENVS = envs()
 
-print()
-print(f"{found} round-trip violations printed above (all one family: NUL / lone surrogate in a literal)")
 
-# ---------------------------------------------------------------------------------
-# Side observation, NOT a C07 violation (the result itself round-trips): a version
-# operand containing a comma is read as a whole specifier set by the algebra while
-# evaluation (dep-logic's own and packaging's) falls back to a string comparison.
-print()
-print("--- side observation (parse/merge semantics, not C07): comma inside a version operand")
-src = 'python_version == "3.8,!=3.9" or python_version != "3.8"'
-m = parse_marker(src)
-e = env(python_version="3.8", python_full_version="3.8.5")
-print(f"    input               : {src}")
-print(f"    parse_marker(input) : {m!r}   evaluates {m.evaluate(e)} on python_version 3.8")
-print(f"    packaging oracle    : Marker(input).evaluate(...) = {Marker(src).evaluate(e)}")
+def violation(m) -> str | None:
+    s = str(m)
+    if m.is_any():
+        return None if s == "" and parse_marker(s).is_any() else f"universal marker renders {s!r}"
+    if m.is_empty():
+        return None if s == "<empty>" and parse_marker(s).is_empty() else f"empty marker renders {s!r}"
+    if "<empty>" in s:
+        return f"<empty> inside {s!r}"
+    try:
+        back, pk = parse_marker(s), Marker(s)
+    except Exception as e:  # noqa: BLE001
+        return f"str(m)={s!r} does not parse: {type(e).__name__}: {e}"
+    for env in ENVS:
+        a, b, c = m.evaluate(env), back.evaluate(env), pk.evaluate(env)
+        if not (a == b == c):
+            return f"str(m)={s!r}: m={a} parse_marker(str(m))={b} packaging(str(m))={c} on {env}"
+    return None
+
+
+class _Timeout(Exception):
+    pass
+
+
+def _on_alarm(*_a) -> None:
+    raise _Timeout()
+
+
+def sample_run(n: int = 400) -> None:
+    rng = random.Random(2026)
+    found = checked = skipped = 0
+    signal.signal(signal.SIGALRM, _on_alarm)
+    for _ in range(n):
+        t1, t2 = expr(rng, rng.randint(0, 2)), expr(rng, rng.randint(0, 1))
+        signal.alarm(3)  # known family 9: some nested inputs take exponential time
+        try:
+            c, f = one_case(rng, t1, t2)
+            checked += c
+            found += f
+        except _Timeout:
+            skipped += 1
+        finally:
+            signal.alarm(0)
+    print(f"sample run: {checked} markers x {len(ENVS)} environments, {found} violations, {skipped} inputs skipped (slow)")
+
+
+def one_case(rng: random.Random, t1: str, t2: str) -> tuple[int, int]:
+    found = checked = 0
+    if True:
+        m1, m2 = parse_marker(t1), parse_marker(t2)
+        ns = rng.sample(NAMES, 2)
+        results = {
+            "parse(t1)": m1,
+            "t1 & t2": m1 & m2,
+            "t2 | t1": m2 | m1,
+            "(t1 | t2) & (t2 | <empty>)": (m1 | m2) & (m2 | EmptyMarker()),
+            f"(t1 | t2).only{tuple(ns)}": (m1 | m2).only(*ns),
+            f"(t1 & t2).exclude({ns[0]})": (m1 & m2).exclude(ns[0]),
+            "(t1 | t2).without_extras() & <any>": (m1 | m2).without_extras() & AnyMarker(),
+        }
+        for label, m in results.items():
+            checked += 1
+            v = violation(m)
+            if v:
+                found += 1
+                print(f"NEW VIOLATION t1=[{t1}] t2=[{t2}] {label}: {v}")
+    return checked, found
+
+
+def borderline() -> None:
+    print("\nBORDERLINE 1 (outside the quantifier: atom without a variable is not well defined)")
+    t = '"a" == "b"'
+    m = parse_marker(t)
+    print(f"  parse_marker({t!r}) is accepted and renders {str(m)!r}")
+    try:
+        parse_marker(str(m))
+        print("  ... which re-parses")
+    except Exception as e:  # noqa: BLE001
+        print(f"  ... which parse_marker rejects: {type(e).__name__}")
+    try:
+        Marker(t).evaluate({})
+    except Exception as e:  # noqa: BLE001
+        print(f"  oracle: packaging parses the text but cannot evaluate it: {type(e).__name__}: {e}")
+
+    print("BORDERLINE 2 (outside the quantifier: object built with the public classmethod from_specifier)")
+    src = parse_marker('"lin" in sys_platform')
+    m = MarkerExpression.from_specifier("sys_platform", src.specifier)
+    print(f"  MarkerExpression.from_specifier('sys_platform', parse_marker('\"lin\" in sys_platform').specifier) renders {str(m)!r}")
+    try:
+        Marker(str(m))
+    except Exception as e:  # noqa: BLE001
+        print(f"  oracle: packaging rejects that text: {type(e).__name__}")
+    print("  (&, | never reach this: GenericSpecifier results are one of the operands, <empty> or universal)")
+
+
+if __name__ == "__main__":
+    sample_run()
+    borderline()
+    print("\nNo new violation of C07 inside its quantifier.")
